@@ -15,6 +15,7 @@
 (*        objects behave as one                                            *)
 (*   C03  arithmetic results (incl. in-place sequences on one object)      *)
 (*   C11  constructions accept exactly the valid arguments                 *)
+(*   C02  evaluations inside histories                                     *)
 (* {"op":"Reset"} starts a new history.  Acceptance: the behaviour         *)
 (* consumes every line (depth of the state graph = Len(Trace) + 1).        *)
 (***************************************************************************)
@@ -59,6 +60,9 @@ StepOK(pre, ev, post) ==
                       /\ (ok /\ c.op \in {"Copy", "CopyAssign", "Move", "MoveAssign", "GetSupport", "GetGrid", "Destroy"} => TargetOK(pre, c, post))
                       /\ (c.op = "Eval" => ok /\ EvalPost(AsSpl(pre[c.src]), c.x, ev.val))
                       /\ (c.op = "BF" /\ ~refuse => ok /\ ev.val = BilinearVal(FormOps(c.which)[1], FormOps(c.which)[2], AsSpl(pre[c.a]), AsSpl(pre[c.b]), <<>>))
+     \* evaluation inside histories (after moves, assignments, in-place updates): the object evaluated is a
+     \* valid spline and the value is that of its stored polynomial
+     /\ For("C02") => (c.op = "Eval" => ok /\ SplValid(AsSpl(pre[c.src])) /\ EvalPost(AsSpl(pre[c.src]), c.x, ev.val))
      /\ For("C08") => (CrossGrid(c) => IF refuse THEN threw /\ ev.out_code = "DIFFERING_GRIDS" /\ post = pre
                                        ELSE ok /\ TargetOK(pre, c, post))
      /\ For("C03") => (c.op \in Arith /\ ~refuse => ok /\ TargetOK(pre, c, post))
